@@ -58,12 +58,30 @@ EX = {
         "after_eq[1..] runs only when after_eq.chars().next() is '\"' or '\\'' (1-byte ASCII), so 1 is a boundary within the string (both equality tests feed the dominating branch: re-checked)",
 }
 # ranges whose ordering (start <= end) is not derivable by the linear-form rule; proof by reading
-EX_ORDER = {
-    ("tauri_typegen::analysis::validator_parser::ValidatorParser::parse_length_from_tokens", "find('(')+1 .. find(')')"):
-        "the ')' is searched in the slice that starts at the '(' found just before, so its offset is >= 1",
-    ("tauri_typegen::analysis::validator_parser::ValidatorParser::parse_range_from_tokens", "find('(')+1 .. find(')')"):
-        "the ')' is searched in the slice that starts at the '(' found just before, so its offset is >= 1",
-}
+EX_ORDER = {}   # (the two former proof-by-reading entries are now derived: found_after_other_char)
+
+
+def found_after_other_char(sym, view, diff):
+    """end - start = found(B) - 1 where B was searched in a view that *begins at an occurrence of a different character* A:
+    the first character of that view is A's pattern, so B cannot match at offset 0 and found(B) >= 1.  Returns the reason or None."""
+    if diff.c != -1 or len(diff.a) != 1:
+        return None
+    (atom, coef), = diff.a.items()
+    if atom[0] != "found" or coef != 1 or atom[1] not in sym.found:
+        return None
+    ib = sym.found[atom[1]]
+    vb = sym.view_op(ib["call"].args[0])
+    if vb is None or ib["pat"] is None:
+        return None
+    for bba, ia in sym.found.items():
+        if bba == atom[1] or ia["pat"] is None:
+            continue
+        va = sym.view_op(ia["call"].args[0])
+        if va is None or va.root != vb.root:
+            continue
+        if vb.off.key() == va.off.add(Lin(0, {("found", bba): 1})).key() and ia["call"].name == "find" and ia["pat"][:1] != ib["pat"][:1]:
+            return "the text searched for %r begins at the %r found just before, so %r is found at offset >= 1" % (ib["pat"], ia["pat"], ib["pat"])
+    return None
 
 
 def check(ctx):
@@ -428,6 +446,8 @@ def discharge_call(P, f, sym, c):
                     lenatom = ("len", view.key())
                     if diff.a.get(lenatom) == 1 and len(diff.a) == 1 and n + diff.c >= 0:
                         parts.append("start <= end since len() >= %d" % n)
+                    elif found_after_other_char(sym, view, diff):
+                        parts.append("start <= end: " + found_after_other_char(sym, view, diff))
                     else:
                         pats = []
                         for which in ("start", "end"):
